@@ -25,6 +25,14 @@ Lemma start_lits :
   build_nbase = 1 /\ build_empty = 0 /\ fromn_nbase = 1 /\ match_i0 = 0 /\ zip_i0 = 0.
 Proof. repeat split; reflexivity. Qed.
 
+(* [lit l i] is 0 beyond the end of [l], and several of the values above ARE 0: pin the number of
+   literals too, so that a literal that disappeared from the source cannot satisfy start_lits by default *)
+Lemma lits_counts :
+  length lits_fastReduction = 5%nat /\ length lits_BuildGCSFilter = 10%nat /\ length lits_FromBytes = 1%nat /\
+  length lits_FromNBytes = 2%nat /\ length lits_Filter_Match = 2%nat /\ length lits_Filter_MatchAny = 1%nat /\
+  length lits_Filter_ZipMatchAny = 4%nat /\ length lits_Filter_HashMatchAny = 2%nat /\ length lits_Filter_sizeHint = 2%nat.
+Proof. repeat split; reflexivity. Qed.
+
 (* ---------- fastReduction ---------- *)
 Lemma w64_small x : x < two64 -> w64 x = x.
 Proof. intros. apply N.mod_small. assumption. Qed.
